@@ -33,9 +33,9 @@ PROPERTY = "C15"
 LEVEL = "exploration"
 ENGINE = "sansio"
 TECHNIQUE = "constructed certificate matrix with ground truth by construction; real OpenSSL peers in memory"
-BUDGET = {"quick": (480, 18), "thorough": (40_000, 200)}
+BUDGET = {"quick": (520, 15), "thorough": (40_000, 200)}
 WORKERS = {"quick": 4, "thorough": 16}
-REQUIRED = ["accept_when_expected", "reject_when_expected", "failure_signalled", "no_appdata_on_reject", "appdata_delivered", "insecure_waives", "foreign_anchor_vs_trust_config", "hook_fault_cells", "quic_cells", "quic_sni_none_on_entry"]
+REQUIRED = ["accept_when_expected", "reject_when_expected", "failure_signalled", "no_appdata_on_reject", "appdata_delivered", "insecure_waives", "foreign_anchor_vs_trust_config", "hook_fault_cells", "quic_cells", "quic_sni_none_on_entry", "first_connection_of_fresh_context", "later_connection_same_context"]
 RULE = (
     "cell = (leaf class x identity form x identity source x trust configuration x ssl_insecure); leaf classes: SAN exact / "
     "among many / other name / left-most wildcard / wildcard spanning two labels / partial wildcards / inner wildcard / CN only / "
@@ -45,7 +45,9 @@ RULE = (
     "identity forms: DNS name, upper-case, A-label, U-label, IPv4, IPv6; identity sources: server.sni, client.sni (address names "
     "something else), server address; trust: CA file, hashed CA directory only, default store (certifi stand-in root), CA file of "
     "another root, CA file + hashed directory of a second CA; issuers: configured CA, directory-only CA, certifi stand-in CA, "
-    "unknown CA, self-signed; plus hook-fault cells: an SNI set by an addon that is empty / has a 64-byte or empty label / a NUL / "
+    "unknown CA, self-signed; every class x identity form is also run under a CA file path "
+    "never used before, i.e. as the FIRST connection built from a freshly created (lru-cached) SSL.Context and again as the second "
+    "connection from that context, with identical strict verdicts required; plus hook-fault cells: an SNI set by an addon that is empty / has a 64-byte or empty label / a NUL / "
     "non-IDNA characters, so that the real tls_start_server hook (dispatched through AddonManager.trigger, exceptions swallowed "
     "as in production) fails after creating the SSL object, crossed with certificates that match / do not match the server "
     "address; plus a QUIC leg: real ServerQuicLayer + TlsConfig.quic_start_server (same dispatch) against an in-process "
@@ -122,10 +124,13 @@ FAULT_FORMS = {
 }
 FAULT_DNS_CLASSES = ["san-exact", "san-other", "wildcard-leftmost", "wildcard-two-labels", "cn-only", "other-root", "expired"]
 FAULT_IP_CLASSES = ["ipsan-exact", "ipsan-other", "ip-as-dnsname", "ipsan-other-root"]
-TRUSTS = ["cafile", "cadir", "default", "cafile-b", "file+dir"]
+TRUSTS = ["cafile", "cadir", "default", "cafile-b", "file+dir", "cafile-fresh"]
 # trust anchors of each configuration: A = the configured CA, B = another private root, C = stand-in for the certifi
 # bundle (only in force when neither a CA file nor a CA directory is configured), D = a CA that only lives in a hashed directory
-TRUST_ANCHORS = {"cafile": {"A"}, "cadir": {"A"}, "default": {"C"}, "cafile-b": {"B"}, "file+dir": {"A", "D"}}
+TRUST_ANCHORS = {"cafile": {"A"}, "cadir": {"A"}, "default": {"C"}, "cafile-b": {"B"}, "file+dir": {"A", "D"},
+                 # the configured CA under a path never used before: the cell's connection is the FIRST one built from a freshly
+                 # created (lru-cached) SSL.Context; it is followed by a second, identical connection from the same context
+                 "cafile-fresh": {"A"}}
 
 
 def full_product():
@@ -181,11 +186,18 @@ def matrix():
             for trust in TRUSTS:
                 if trust == "cafile":
                     continue
+                if trust == "cafile-fresh" and idf in ("upper", "idn-a"):
+                    continue  # fresh-context pairs are enumerated for the dns, idn-u, ipv4 and ipv6 forms; the rest is sampled
                 n += 1
                 cells.append((cls, idf, SOURCES[n % 3], trust, False))
                 if trust == "default":
                     cells.append((cls, idf, SOURCES[(n + 1) % 3], trust, True))
-    return cells + fault_cells() + quic_cells()
+    cells = cells + fault_cells() + quic_cells()
+    # fixed permutation: if a loaded machine cuts the quick tier short by time, the executed prefix still samples every leg
+    import random
+
+    random.Random(15).shuffle(cells)
+    return cells
 
 
 def rl(r, n=None):
@@ -418,7 +430,15 @@ def state():
     return _STATE
 
 
-def run_cell(cell, r, canonical):
+def fresh_cafile(pki):
+    """A copy of root A under a path no SSL.Context was created for yet (new lru_cache key -> new context)."""
+    _STATE["fresh_n"] = _STATE.get("fresh_n", 0) + 1
+    p = pki.dir / f"root-a-fresh-{_STATE['fresh_n']}.pem"
+    p.write_bytes(pki.cafile_a.read_bytes())
+    return p
+
+
+def run_cell(cell, r, canonical, fresh_path=None):
     """Execute one cell. -> dict with outcome fields (no judgement here)."""
     cls, idf, src, trust, insecure = cell
     if src.startswith("quic:"):
@@ -434,7 +454,7 @@ def run_cell(cell, r, canonical):
 
     tctx.options.update(
         ssl_insecure=insecure,
-        ssl_verify_upstream_trusted_ca={"cafile": str(pki.cafile_a), "cafile-b": str(pki.cafile_b), "file+dir": str(pki.cafile_a)}.get(trust),
+        ssl_verify_upstream_trusted_ca={"cafile": str(pki.cafile_a), "cafile-b": str(pki.cafile_b), "file+dir": str(pki.cafile_a), "cafile-fresh": str(fresh_path)}.get(trust),
         ssl_verify_upstream_trusted_confdir={"cadir": str(pki.cadir_a), "file+dir": str(pki.cadir_d)}.get(trust),
     )
     client = connection.Client(peername=("198.51.100.7", 51234), sockname=("127.0.0.1", 8080), timestamp_start=1.0, state=connection.ConnectionState.OPEN)
@@ -704,13 +724,14 @@ def mode_none_on_entry(src):
     return src in ("quic:address", "quic:client.sni")
 
 
-def judge(ctx, cell, o):
+def judge(ctx, cell, o, position=None):
     cls, idf, src, trust, insecure = cell
     exp = expected(cls, trust, insecure, idf, src)
     if cls in ("certifi-root", "ipsan-certifi-root", "dir-only-root") and not insecure:
         ctx.count("foreign_anchor_vs_trust_config")  # public-bundle / directory-only CA against each trust configuration
     w = {
         "cell": {"class": cls, "identity_form": idf, "identity_source": src, "trust": trust, "ssl_insecure": insecure},
+        **({"position": position} if position else {}),
         "identity": o["ident"], "leaf_sans": o["sans"], "leaf_cn": o["cn"], "flow": "lazy" if o["lazy"] else "eager",
         "peer_tls13": o["max13"], "stalled_until_peer_close": o["stalled_until_close"], "expected": {True: "accept", False: "reject", None: "either"}[exp], "addon_errors": o["addon_errors"][:2],
         "observed": {k: o[k] for k in ("completed", "established", "failed", "closed", "srv_error", "srv_tls", "peer_handshaken", "peer_error", "tunnel_state", "tls_version")},
@@ -775,8 +796,19 @@ def run(ctx):
             k = i * ctx.nworkers + ctx.worker
             canonical = k < len(cells)
             cell = cells[k] if k < len(cells) else r.choice(allcells)
+            fresh = cell[3] == "cafile-fresh"
+            o_first = None
             try:
-                o = run_cell(cell, r, canonical)
+                if fresh:
+                    # first connection of a fresh context, then the identical connection again from the (now cached) context
+                    fp = fresh_cafile(state()["pki"])
+                    rs = r.getstate()
+                    o_first = run_cell(cell, r, canonical, fresh_path=fp)
+                    r.setstate(rs)
+                    o = run_cell(cell, r, canonical, fresh_path=fp)
+                    fp.unlink()
+                else:
+                    o = run_cell(cell, r, canonical)
             except Exception as e:  # noqa -- an exception escaping the layer/driver
                 import traceback
 
@@ -785,7 +817,15 @@ def run(ctx):
                 ctx.violation(f"layer-raises:{type(e).__name__}@{exc_site(e)}", {"cell": list(cell), "tb": traceback.format_exc()[-1200:]}, classify(cell, "raises"))
                 ctx.case(("raise", *cell), True, {"cell": list(cell)})
                 continue
-            verdict = judge(ctx, cell, o)
+            if fresh:
+                ctx.count("first_connection_of_fresh_context")
+                v_first = judge(ctx, cell, o_first, position="first connection of a fresh context")
+                ctx.count("later_connection_same_context")
+                verdict = judge(ctx, cell, o, position="second connection of the same context")
+                if v_first != verdict:
+                    ctx.violation("verdict-depends-on-connection-order", {"cell": list(cell), "identity": o["ident"], "leaf_sans": o["sans"], "leaf_cn": o["cn"], "first": v_first, "later": verdict}, classify(cell, "order"))
+            else:
+                verdict = judge(ctx, cell, o)
             if canonical:
                 ctx.count("matrix_cells_done")
                 sig = ("matrix", *cell)
